@@ -50,12 +50,15 @@ def _lines_of(func):
 
 
 REMOTE_CODES = [f.__code__ for f in vars(remote.Environment).values() if hasattr(f, '__code__')]
-RUN_LINES = _lines_of(remote.Environment.run)
+RUN_LINES = _lines_of(remote.Environment.run) if hasattr(remote.Environment, 'run') else set()
 CLEAR_LINES = set()
 import dis as _dis
-for _ins in _dis.get_instructions(remote.Environment._threaded_run):
-    if _ins.opname == 'STORE_ATTR' and _ins.argval == 'prepare_thread' and _ins.positions:
-        CLEAR_LINES.add(_ins.positions.lineno)
+for _f in vars(remote.Environment).values():
+    # every place outside prepare() that assigns the starter handle (the starter clearing it, in the pinned code)
+    if hasattr(_f, '__code__') and _f.__name__ not in ('prepare', '__init__'):
+        for _ins in _dis.get_instructions(_f):
+            if _ins.opname == 'STORE_ATTR' and _ins.argval == 'prepare_thread' and _ins.positions:
+                CLEAR_LINES.add(_ins.positions.lineno)
 
 
 def worker_init():
@@ -285,6 +288,11 @@ class Run(object):
                 self.sent.append(op[1])
                 res = env.eval('return %r' % op[1])
                 self.answered.append(res)
+                if res != op[1]:
+                    # two callers share one connection without a lock of their own: a caller can be handed the
+                    # reply to the other caller's request.  The property does not speak about pairing between
+                    # concurrent callers, so this is counted, not judged.
+                    self.world.probe('reply_delivered_to_other_caller')
             elif kind == 'think':
                 for _ in range(op[1]):
                     k.yield_point(('think',))
@@ -478,6 +486,11 @@ class Run(object):
         for who, kind, outcome, extra in self.op_log:
             if kind == 'call' and outcome == 'ok' and extra not in self.sent:
                 self.vio('C16/launchfail/wrong-answer', 'call returned %r' % (extra,))
+            if outcome not in ('ok',) and extra != '_run':
+                # a launch that fails may be reported to the caller - as the launch failure, raised where the launch
+                # happens.  Any other exception is the handshake falling over its own state.
+                self.vio('C16/launchfail/unexpected-exception/%s/%s:%s' % (kind, outcome, extra),
+                         '%s: %s raised %s in %s() although only the launch itself failed' % (who, kind, outcome, extra))
         # faults stop now: every later launch succeeds
         w.popen_failures = set()
         w.never_listen = set()
@@ -553,7 +566,7 @@ def run_case(case, keep_events=0, record_choices=False):
     }
 
 
-PROBE_NAMES = ['starter_clears_handle_while_caller_inside_run', 'join_waited_for_running_starter', 'lock_contended', 'two_waiters_on_lock', 'connect_refused_ge_3']
+PROBE_NAMES = ['reply_delivered_to_other_caller', 'starter_clears_handle_while_caller_inside_run', 'join_waited_for_running_starter', 'lock_contended', 'two_waiters_on_lock', 'connect_refused_ge_3']
 
 
 def run_unit(unit):
